@@ -76,7 +76,6 @@ func (c *mctx) newLeaf(v interface{}) int {
 
 // ---- Go types with scripted methods
 
-
 func runSops(w interface{}, ops []sop) {
 	sp, _ := w.(redact.SafePrinter)
 	for _, o := range ops {
@@ -277,7 +276,31 @@ func (c *mctx) genScript(depth int) []sop {
 }
 
 func (c *mctx) genPayload() *mval {
-	switch c.r.Intn(4) {
+	switch c.r.Intn(5) {
+	case 4:
+		// a SafeFormatter as panic value that itself prints, through the SafePrinter's
+		// Print/Printf, operands whose methods panic again (a nested printer inside catchPanic)
+		r := c.r
+		inner := c.genMeth(3, 9)
+		as := []*mval{inner}
+		if r.Bool() {
+			as = append([]*mval{c.genLeaf()}, as...)
+		}
+		var ops []sop
+		if r.Bool() {
+			ops = append(ops, sop{tag: "ss", p: "rep"})
+		}
+		if r.Bool() {
+			ops = append(ops, sop{tag: "pr", args: as})
+		} else {
+			ops = append(ops, sop{tag: "pf", p: "%v %v", args: as})
+		}
+		v := mSafeFormatter{"pv", newScript(ops)}
+		m := &mval{k: mMeth, leaf: 7}
+		m.goVal, m.script = v, ops
+		m.id = c.newLeaf("")
+		m.kids = []*mval{c.structView2(v, "pv", v.k)}
+		return m
 	case 0:
 		m := &mval{k: mLeaf, goVal: "boom‹"}
 		m.id = c.newLeaf(m.goVal)
@@ -291,6 +314,11 @@ func (c *mctx) genPayload() *mval {
 		m.id = c.newLeaf(m.goVal)
 		return m
 	default:
+		if c.r.Chance(50) {
+			// any method-bearing value, scripted formatters with nested prints included: the
+			// payload is printed by catchPanic through ordinary dispatch, while p.panicking is set
+			return c.genMeth(1, -1)
+		}
 		return c.genMeth(3, 1)
 	}
 }
